@@ -356,7 +356,9 @@ pub fn replay(args: &[String]) {
 /// PDUs around and beyond 64 KiB.  Written by the library, length field = octets written, read back as the same item (or skipped
 /// to exactly its end) - the wire format's length field has 32 bits, nothing in it stops at 16.
 fn large_pdus(s: &mut Summary) {
-    for n in [65_503usize, 65_504, 65_505, 70_000, 200_000] {
+    // ... and every size in between that a writer or reader might treat specially (a stack buffer, a one-octet length, a word
+    // boundary): every length of key information from 1 to 320 octets, every provider count from 0 to 80
+    for n in (1usize..=320).chain([65_503usize, 65_504, 65_505, 70_000, 200_000]) {
         for ver in [1u8, 2] {
             let r = guarded(|| -> Result<(), String> {
                 let info: Vec<u8> = (0..n).map(|i| (i * 7 + 3) as u8).collect();
@@ -390,7 +392,40 @@ fn large_pdus(s: &mut Summary) {
             s.evals(1);
         }
     }
-    for n in [65_519usize, 65_520, 65_521, 300_000] {
+    for n in 0usize..=80 {
+        let r = guarded(|| -> Result<(), String> {
+            let provs: Vec<Asn> = (0..n).map(|i| Asn::from_u32(65000 + 3 * i as u32)).collect();
+            let item = Payload::aspa(Asn::from_u32(64496), pdu::ProviderAsns::try_from_iter(provs.iter().copied()).map_err(|e| e.to_string())?);
+            for flags in [1u8, 0] {
+                let x = pdu::Payload::new(2, flags, item.as_ref());
+                let bytes = write_bytes(|w| async move { x.write(w).await });
+                // (a withdrawal carries no providers)
+                let want = if flags == 1 { 12 + 4 * n } else { bytes.len() };
+                if bytes.len() != want || u32::from_be_bytes([bytes[4], bytes[5], bytes[6], bytes[7]]) as usize != bytes.len() {
+                    return Err(format!("{} octets written, length field {}", bytes.len(), u32::from_be_bytes([bytes[4], bytes[5], bytes[6], bytes[7]])));
+                }
+                for chunk in [4096usize, 7] {
+                    let mut rd = Counting::new(bytes.clone(), chunk);
+                    match block(pdu::Payload::read(&mut rd)) {
+                        Ok(Ok(Some(p))) => match p.to_payload() {
+                            Ok((Action::Announce, back)) if flags == 1 && back == item && rd.consumed() == bytes.len() => {}
+                            Ok((Action::Withdraw, Payload::Aspa(a))) if flags == 0 && a.customer == Asn::from_u32(64496) && rd.consumed() == bytes.len() => {}
+                            other => return Err(format!("flags {flags}: reads back as {:?} after {} of {} octets", other.map(|x| x.0), rd.consumed(), bytes.len())),
+                        },
+                        other => return Err(format!("Payload::read fails on the library's own {}-octet ASPA PDU: {:?}", bytes.len(), other.map(|_| ()).map_err(|e| e.to_string()))),
+                    }
+                }
+            }
+            Ok(())
+        });
+        match r {
+            Ok(Ok(())) => {}
+            Ok(Err(m)) => s.violation("pdu:sizes:aspa", format!("ASPA with {n} providers: {m}"), json!({"providers": n})),
+            Err(m) => s.violation("pdu:panic", m, json!({"providers": n})),
+        }
+        s.evals(1);
+    }
+    for n in (0usize..=300).chain([65_519usize, 65_520, 65_521, 300_000]) {
         let r = guarded(|| -> Result<(), String> {
             let e = pdu::Error::new(1, 2, [0u8; 0], vec![b'x'; n]);
             let mut bytes = write_bytes(|w| async move { e.write(w).await });
